@@ -456,6 +456,10 @@ def programs(tier):
         lambda: [('diff', 1, 1, _res_mixed('a', 4, 1, 2)), ('blocksize', 2), ('diff', 0, 2, _res('b', 2, 2)), ('diff', 0, 1, _res('c', 2, 1)), ('diff', 0, 1, _res('d', 2, 1)), ('quit',)])
     add('v2 2ch BITSHIFT between the channel blocks of a frame', dict(nchan=2, nmean=0, blocksize=2),
         lambda: [('diff', 0, 2, _res('a', 2, 2)), ('bitshift', 1), ('diff', 0, 1, _res('b', 2, 1)), ('diff', 1, 1, _res('c', 2, 1)), ('bitshift', 0), ('diff', 0, 1, _res('d', 2, 1)), ('quit',)])
+    add('v2 BITSHIFT with a running mean: DIFF0 blocks after the mean history has shifted entries', dict(nmean=2, blocksize=2),
+        lambda: [('bitshift', 1), ('diff', 0, 2, _res('a', 2, 2)), ('diff', 0, 2, _res('b', 2, 2)), ('diff', 0, 1, _res('c', 2, 1)), ('diff', 0, 1, _res('d', 2, 1)), ('quit',)])
+    add('v2 blocksize change mid-stream, then predictors that use the wrapped history', dict(nmean=0, blocksize=4),
+        lambda: [('diff', 1, 1, _res_mixed('a', 4, 1, 2)), ('blocksize', 2), ('diff', 2, 1, _res('b', 2, 1)), ('diff', 3, 1, _res('c', 2, 1)), ('diff', 1, 1, _res('d', 2, 1)), ('quit',)])
     if tier == 'thorough':
         add('v2 qlpc3 nmean4', dict(maxnlpc=3, nmean=4, blocksize=3), lambda: [('diff', 2, 2, _res('a', 3, 2)), ('qlpc', 1, [25, -14, 4], _res('b', 3, 1)), ('qlpc', 1, [-7], _res('c', 3, 1)), ('quit',)])
         add('v2 2ch qlpc bitshift', dict(nchan=2, maxnlpc=1, nmean=1, blocksize=2), lambda: [('bitshift', 1), ('diff', 1, 1, _res('a', 2, 1)), ('qlpc', 1, [9], _res('b', 2, 1)),
